@@ -475,11 +475,15 @@ class ZernikeFit:
         # the model is linear in the coefficients: solve the least-squares
         # problem directly (an iterative solver started at zero stops on
         # absolute tolerances, so the result was not linear in the data)
-        r = np.ravel(self.radius)
-        phi = np.ravel(self.phi)
+        z = np.ravel(self.z)
+        # samples without a value (e.g. the OPD of rays that failed) carry no
+        # information: fit the valid ones
+        valid = np.isfinite(z)
+        r = np.ravel(self.radius)[valid]
+        phi = np.ravel(self.phi)[valid]
         self.zernike.coeffs = [1.0 for _ in range(self.num_terms)]
         basis = np.array([np.broadcast_to(term, r.shape)
                           for term in self.zernike.terms(r, phi)],
                          dtype=float).T
-        self.zernike.coeffs = np.linalg.lstsq(basis, np.ravel(self.z),
+        self.zernike.coeffs = np.linalg.lstsq(basis, z[valid],
                                               rcond=None)[0]
